@@ -205,3 +205,38 @@ Qed.
 Theorem build_table_no_panic : forall bits vals, table_facts bits vals ->
   build_table bits vals = Ok (ht_of bits vals).
 Proof. intros bits vals F. unfold build_table. rewrite (lookup_ok_facts bits vals F). reflexivity. Qed.
+
+(* ---------- the lookupTable fast path of HuffmanDecoder.Decode is dead ---------- *)
+(* Decode takes the fast path only when nBits >= 8; starting from the initial state (nBits = 0)
+   every ReadBit / ReadBits leaves 0 <= nBits <= 7, on every input. *)
+Lemma r_fill_n : forall k bits n rest b' n' rest',
+  r_fill k bits n rest = Some (b', n', rest') -> n' = n + 8 * Z.of_nat k.
+Proof.
+  induction k; intros bits n rest b' n' rest' H; cbn [r_fill] in H.
+  - injection H as _ H _. lia.
+  - destruct (next_byte rest) as [[b r]|]; [|discriminate]. apply IHk in H. lia.
+Qed.
+
+Theorem fast_path_dead_read_bit : forall st b st', 0 <= r_n st <= 7 ->
+  read_bit st = Some (b, st') -> 0 <= r_n st' <= 7.
+Proof.
+  intros st b st' Hn H. unfold read_bit in H. destruct (Z.eqb_spec (r_n st) 0).
+  - destruct (next_byte (r_rest st)) as [[x r]|]; [|discriminate]. injection H as _ H. subst st'. cbn. lia.
+  - injection H as _ H. subst st'. cbn. lia.
+Qed.
+
+Theorem fast_path_dead_read_bits : forall st n v st', 0 <= r_n st <= 7 -> 0 <= n ->
+  read_bits st n = Some (v, st') -> 0 <= r_n st' <= 7.
+Proof.
+  intros st n v st' Hn Hn0 H. unfold read_bits in H. destruct (Z.eqb_spec n 0).
+  - injection H as _ H. subst st'. exact Hn.
+  - destruct (r_fill _ _ _ _) as [[[b' n'] rest']|] eqn:E; [|discriminate].
+    apply r_fill_n in E. injection H as _ H. subst st'. cbn [r_n].
+    destruct (Z.ltb_spec (r_n st) n) as [Hlt|Hge].
+    + rewrite Z.shiftr_div_pow2 in E by lia. change (2 ^ 3) with 8 in E.
+      pose proof (Z.div_mod (n - r_n st + 7) 8 ltac:(lia)) as Hdm.
+      pose proof (Z.mod_pos_bound (n - r_n st + 7) 8 ltac:(lia)) as Hr.
+      assert (0 <= (n - r_n st + 7) / 8) by (apply Z.div_pos; lia).
+      rewrite Z2Nat.id in E by lia. lia.
+    + cbn [Z.of_nat] in E. lia.
+Qed.
